@@ -24,6 +24,18 @@ from cpverif import core
 from cpverif.core import Ctx, HarnessError, Violation
 
 
+def out(*args, **kwargs):
+    """print() that survives a reader that went away (e.g. `| head`): the verdict is the exit status."""
+    try:
+        print(*args, **kwargs)
+        (kwargs.get("file") or sys.stdout).flush()
+    except BrokenPipeError:
+        try:
+            sys.stdout = open(os.devnull, "w")
+        except Exception:  # noqa: BLE001
+            pass
+
+
 def _module(prop: str):
     return importlib.import_module(f"cpverif.props.{prop.lower()}")
 
@@ -73,6 +85,14 @@ def _find_violation(e, depth=0, seen=None):
 def _run_shard(task):
     prop, part_name, tier, seed, shard, nshards, known = task
     t0 = time.time()
+    try:
+        # a runaway computation in the code under test (e.g. 2**<huge>) must end as MemoryError in this
+        # worker, not as a machine out of memory
+        import resource
+        lim = int(os.environ.get("CPV_MEM_LIMIT_GB", "8")) * (1 << 30)
+        resource.setrlimit(resource.RLIMIT_AS, (lim, lim))
+    except Exception:  # noqa: BLE001
+        pass
     try:
         mod = _module(prop)
         if getattr(mod, "NEEDS_LIB", True):
@@ -140,14 +160,14 @@ def do_replay(prop: str, path: str) -> int:
     with open(path, encoding="utf-8") as f:
         payload = json.load(f)
     if payload.get("property") not in (None, prop):
-        print(f"replay file is for {payload.get('property')}, not {prop}", file=sys.stderr)
+        out(f"replay file is for {payload.get('property')}, not {prop}", file=sys.stderr)
         return 2
     mod = _module(prop)
     if getattr(mod, "NEEDS_LIB", True):
         core.load_lib()
     part = next((p for p in mod.PARTS if p.name == payload["part"]), None)
     if part is None:
-        print(f"unknown part {payload['part']}", file=sys.stderr)
+        out(f"unknown part {payload['part']}", file=sys.stderr)
         return 2
     known = core.load_known_findings().get(prop, {})
     ctx = Ctx(prop, part.name, payload.get("tier", "quick"), int(payload.get("seed", 0)), 0, 1,
@@ -156,19 +176,19 @@ def do_replay(prop: str, path: str) -> int:
     try:
         part.check(ctx, payload["case"])
     except Violation as v:
-        print(f"replay: {v}")
-        print(f"VIOLATION property={prop} replay={path}")
+        out(f"replay: {v}")
+        out(f"VIOLATION property={prop} replay={path}")
         return 1
     except BaseException as e:  # noqa: BLE001
         if core.tb_touches_lib(e.__traceback__):
-            print(f"replay: unexpected {type(e).__name__}: {e}")
-            print(f"VIOLATION property={prop} replay={path}")
+            out(f"replay: unexpected {type(e).__name__}: {e}")
+            out(f"VIOLATION property={prop} replay={path}")
             return 1
         traceback.print_exc()
         return 2
     for sig, n in ctx.known_hits.items():
-        print(f"KNOWN-FINDING: property={prop} {sig} {known.get(sig, '')}")
-    print(f"replay: no violation for {path}")
+        out(f"KNOWN-FINDING: property={prop} {sig} {known.get(sig, '')}")
+    out(f"replay: no violation for {path}")
     return 0
 
 
@@ -365,21 +385,21 @@ def main(argv=None) -> int:
         os.replace(tmp, os.path.join(core.VERIF, "evidence", f"{prop}.json"))
 
     for sig, n in sorted(known_hits.items()):
-        print(f"KNOWN-FINDING: property={prop} {sig} ({n} cases excluded) {known.get(sig, '')}")
+        out(f"KNOWN-FINDING: property={prop} {sig} ({n} cases excluded) {known.get(sig, '')}")
 
-    print(f"{prop} tier={args.tier} seed={seed} evaluations={evaluations} "
+    out(f"{prop} tier={args.tier} seed={seed} evaluations={evaluations} "
           f"distinct_nontrivial={distinct_total} violations={len(violations)} "
           f"wall={wall:.1f}s")
     for name, pp in per_part.items():
-        print(f"  part {name}: evaluations={pp['evaluations']} distinct_nontrivial="
+        out(f"  part {name}: evaluations={pp['evaluations']} distinct_nontrivial="
               f"{pp['distinct_nontrivial']} exhaustive={pp['exhaustive']} cpu={pp['cpu_s']}s")
 
     if errors:
         for e in errors[:2]:
-            print(f"HARNESS-ERROR part={e['part']} shard={e['shard']}\n{e['error'][-3000:]}",
+            out(f"HARNESS-ERROR part={e['part']} shard={e['shard']}\n{e['error'][-3000:]}",
                   file=sys.stderr)
         if len(errors) > 2:
-            print(f"HARNESS-ERROR ... and {len(errors) - 2} more shard errors", file=sys.stderr)
+            out(f"HARNESS-ERROR ... and {len(errors) - 2} more shard errors", file=sys.stderr)
     if violations:
         seen = set()
         for part, v, existing in violations:
@@ -390,15 +410,15 @@ def main(argv=None) -> int:
             path = existing or os.path.relpath(_write_replay(prop, v, seed, args.tier, part),
                                                core.VERIF)
             msg = v["message"].strip().splitlines()
-            print(f"  {v['check']}: {msg[0] if msg else ''}")
+            out(f"  {v['check']}: {msg[0] if msg else ''}")
             for extra_line in msg[1:8]:
-                print(f"    {extra_line}")
-            print(f"VIOLATION property={prop} replay={path}")
+                out(f"    {extra_line}")
+            out(f"VIOLATION property={prop} replay={path}")
         return 1
     if errors:
         return 2
     if distinct_total < 2 or evaluations < 1:
-        print("HARNESS-ERROR: run explored fewer than 2 distinct non-trivial cases", file=sys.stderr)
+        out("HARNESS-ERROR: run explored fewer than 2 distinct non-trivial cases", file=sys.stderr)
         return 2
     return 0
 
@@ -414,4 +434,12 @@ def _regress_entry(arg):
 
 
 if __name__ == "__main__":
-    sys.exit(main())
+    rc = main()
+    try:
+        sys.stdout.flush()
+    except BrokenPipeError:
+        try:
+            sys.stdout = open(os.devnull, "w")
+        except Exception:  # noqa: BLE001
+            pass
+    sys.exit(rc)
